@@ -288,8 +288,13 @@ def run_driver(prop, d, tier, seed, budget=None):
     env = goenv()
     if d.get("race"):
         env["GORACE"] = "halt_on_error=1 exitcode=66"
-    rc, out = sh([os.path.join(WORK, "drv_" + name), "-seed", str(seed), "-n", str(n), "-out", trace],
-                 timeout=d.get("timeout", 3000), env=env)
+    try:
+        rc, out = sh([os.path.join(WORK, "drv_" + name), "-seed", str(seed), "-n", str(n), "-out", trace],
+                     timeout=d.get("timeout", 3000), env=env)
+    except subprocess.TimeoutExpired:
+        # a driver that does not finish: some call into the implementation never
+        # returned (deadlock, leaked semaphore, endless loop)
+        rc, out = 124, "the driver %s did not finish within %d s: a call into the implementation never returned" % (name, d.get("timeout", 3000))
     res = {"driver": name, "n": n, "seed": seed, "trace": trace, "rc": rc, "out": out[-2000:],
            "failures": [], "divergences": [], "summary": {}, "wall_s": 0}
     if rc != 0:
